@@ -83,6 +83,18 @@ def generate(rng, tier):
             d["x"] = [abs(v) + 0.05 for v in d["x"]]
             ds.append(SL.finish_dataset(d, cfg["mat"]))
         cases.append({"cfg": cfg, "datasets": ds, "desc": {"shape": "fixed " + repr(sorted(mo)), "n_datasets": 2, "options_reassigned": False, "zero_scale": True}})
+    # fixed: three banks on one grid and a fourth one sampled more finely than the 0.01 resolution (3 to 5 coincident points per Q)
+    for mo in ({"Y": {"Scale": 1.25, "Offset": 0.5}, "Q[S(Q)-1]": {"Y": {"Scale": 2.0, "Offset": -0.25}}}, {"Q[S(Q)-1]": {"Y": {"Scale": 0.5}}}):
+        cfg = SL.gen_config(rng, global_window=False)
+        cfg["Merging"] = mo
+        ds = []
+        for j in range(4):
+            xs_ = [0.3 + 0.1 * i_ for i_ in range(6)] if j < 3 else [0.392 + 0.004 * i_ for i_ in range(6)]
+            d = {"x": xs_, "kind": j % 4, "style": "exact", "s_true": [1.0 + 0.2 * (j + 1) * (-1) ** i_ + 0.01 * i_ * j for i_ in range(6)],
+                 "dy": [0.01 * (1 + j + i_) for i_ in range(6)], "Qmin": None, "Qmax": None, "Y": None, "X": None}
+            ds.append(SL.finish_dataset(d, cfg["mat"]))
+        cases.append({"cfg": cfg, "datasets": ds, "desc": {"shape": "fixed " + repr(sorted(mo)), "n_datasets": 4, "options_reassigned": False,
+                                                          "coincident_points": "3 to 5 per Q"}})
     return cases
 
 
